@@ -31,15 +31,24 @@ def alt_at(jd_ut, lat, lon):
 
 
 def sweep(rep, want, stats_only=False):
-    pts = grid()
+    pts = grid(8000 if getattr(rep, "tier", "quick") == "thorough" else 400)
     eph = [{"api": "k_ephemeris", "date": d.isoformat(), "gmt": g, "lat": la, "lon": lo, "elev": 0.0} for d, (la, lo, g) in pts]
     tri = kreplay.run(eph)
     cases = [{"api": "k_get_hours", "lat": e["lat"], "lon": e["lon"], "elev": 0.0, "astros": t["astros"],
               "params": {"method": "Isna", "ext": "None", "round": "None"}, "from": e} for e, t in zip(eph, tri) if "astros" in t]
     outs = kreplay.run(cases)
-    worst = {"dhuhr_s": 0.0, "riseset_deg": 0.0, "twilight_deg": 0.0}
+    worst = {"dhuhr_s": 0.0, "riseset_deg": 0.0, "twilight_deg": 0.0, "declination_deg": 0.0}
     found = {}
     for c, o in zip(cases, outs):
+        # "evaluated with that date's solar declination" (0.03 deg clauses of C02-C04): the library's declination of the day against the
+        # independent one at the same instant; 0.02 deg leaves 0.01 for the kernel identity decided by the solver (measured worst 0.009)
+        e0 = c["from"]
+        jd00 = datetime.date.fromisoformat(e0["date"]).toordinal() + 1721424.5 - e0["gmt"] / 24.0
+        ddec = abs(c["astros"][1][1] - oracle.sun_apparent(jd00)[1])
+        worst["declination_deg"] = max(worst["declination_deg"], ddec)
+        if set(want) & {"twilight", "riseset", "asr"} and ddec > 0.02:
+            found.setdefault("eph-declination", []).append(("independent ephemeris: the day's declination is %.4f, library uses %.4f (off by %.3f deg) on %s"
+                                                            % (oracle.sun_apparent(jd00)[1], c["astros"][1][1], ddec, e0["date"]), c, o))
         if "hours" not in o:
             found.setdefault("eph-panic", []).append(("get_hours panics on the library's own ephemeris", c, o))
             continue
@@ -71,7 +80,7 @@ def sweep(rep, want, stats_only=False):
         rep.violation(key, items[0][0] + (" (+%d more grid points)" % (len(items) - 1) if len(items) > 1 else ""), [x[1] for x in items[:3]], items[0][2])
     rep.assumptions.append("ephemeris ASSUMPTION sweep (native, sampling - not the deciding step): %d (date, site) points in 1600..2399 against an "
                            "independent Meeus ch.25 ephemeris: worst Dhuhr hour angle %.1f s, worst rise/set altitude error %.3f deg, worst twilight "
-                           "altitude error %.3f deg" % (len(cases), worst["dhuhr_s"], worst["riseset_deg"], worst["twilight_deg"]))
+                           "altitude error %.3f deg, worst declination difference %.4f deg" % (len(cases), worst["dhuhr_s"], worst["riseset_deg"], worst["twilight_deg"], worst["declination_deg"]))
     rep.extra["ephemeris_assumption_sweep"] = {"points": len(cases), "worst": {k: round(v, 4) for k, v in worst.items()}}
     return bool(found)
 
@@ -85,6 +94,8 @@ def judge_case(c, o, want):
     jd0 = d.toordinal() + 1721424.5 - e["gmt"] / 24.0
     h = dict(zip(oracle.ORDER, o["hours"]))
     if "dhuhr" in want and h["Dhuhr"] is not None and abs(alt_at(jd0 + h["Dhuhr"] / 24.0, e["lat"], e["lon"])[1]) * 240 > 10.0:
+        return True
+    if set(want) & {"twilight", "riseset", "asr"} and abs(c["astros"][1][1] - oracle.sun_apparent(jd0)[1]) > 0.02:
         return True
     if abs(e["lat"]) <= 60:
         for nm, tgt, tol, w in (("Shurooq", -0.833, 0.05, "riseset"), ("Maghrib", -0.833, 0.05, "riseset"), ("Fajr", -15.0, 0.5, "twilight"), ("Isha", -15.0, 0.5, "twilight")):
